@@ -12,7 +12,8 @@ META = {
         "operation kind) — otherwise equal-key lines separated by other lines stay unmerged and later per-lot logic sees input "
         "order. R2: that sort is stable and ascending. R3: legs are grouped by (disposal date, ticker) and the groups sorted by "
         "the shared comparator; same-day lots are consumed as one aggregate (date filter only, all lots of the date). R4: the CLI "
-        "joins input files with a line break before parsing. Does not decide invariance under permutations/partitions."),
+        "joins input files with a line break before parsing. R5: within a date the day loop runs separate passes (acquisitions, "
+        "disposals, pooling, splits) so the order of same-day lines cannot matter (shared with C01-R2). Does not decide invariance under permutations/partitions."),
     "trusted_base": ["Vec::sort_by is stable", "rustc MIR + resolution"],
 }
 
@@ -158,3 +159,14 @@ def run(ctx, rep):
     canon(R, rep)
     grouping(R, rep)
     cli_join(R, rep)
+    # within one date the phases run as separate passes over the day's lines (all buys, all sells, pooling, all splits):
+    # with interleaved per-line processing the result would depend on the order of same-day lines (shared with C01-R2)
+    import rules.c01 as c01
+    from core import Report
+    r2 = Report("tmp")
+    c01.dayloop_order(R, r2)
+    for o in r2.obligations:
+        rep.ob("R5", o["instance"], o["ok"], o["detail"], o["site"], key="R5:" + o["instance"])
+    for v in r2.violations:
+        if v["instance"].startswith("role:"):
+            rep.ob("R5", v["instance"], False, v["detail"], v["site"], key="R5:" + v["instance"])
